@@ -161,3 +161,79 @@ package commitlog
 //@   ensures [only-deleted] err == nil ==> (forall s *segment :: ghost.removed[s] ==> old(ghost.removed[s]) || (exists j int :: 0 <= j && j < len(segments)-len(out) && old(segments[j]) == s))
 // (that every segment of the dropped prefix was handed to Delete() is proved per stage; its composition over the
 //  three stages needs an index-shifting argument the solvers do not find, so it is not claimed at this level)
+
+// ---------------------------------------------------------------------------------------------
+// Leader epoch cache (property C02; also C05, C09): leader epoch -> first offset of that epoch
+//
+// Representation invariant: entries are non-nil, leader epochs strictly increase, start offsets do not decrease.
+//@ pure func wfEpochs(l *leaderEpochCache) bool = (forall i int :: 0 <= i && i < len(l.epochOffsets) ==> l.epochOffsets[i] != nil && allocated(l.epochOffsets[i])) && (forall i int, j int :: 0 <= i && i < j && j < len(l.epochOffsets) ==> l.epochOffsets[i].leaderEpoch < l.epochOffsets[j].leaderEpoch && l.epochOffsets[i].startOffset <= l.epochOffsets[j].startOffset)
+
+//@ func (*leaderEpochCache).latestEpoch serves C02
+//@   requires l != nil && wfEpochs(l)
+//@   safety
+//@   modifies nothing
+//@   ensures result == (len(l.epochOffsets) == 0 ? 0 : l.epochOffsets[len(l.epochOffsets)-1].leaderEpoch)
+
+//@ func (*leaderEpochCache).latestOffset serves C02
+//@   requires l != nil && wfEpochs(l)
+//@   safety
+//@   modifies nothing
+//@   ensures result == (len(l.epochOffsets) == 0 ? -1 : l.epochOffsets[len(l.epochOffsets)-1].startOffset)
+
+//@ func (*leaderEpochCache).earliestOffset serves C02, C09
+//@   requires l != nil && wfEpochs(l)
+//@   safety
+//@   modifies nothing
+//@   ensures result == (len(l.epochOffsets) == 0 ? -1 : l.epochOffsets[0].startOffset)
+
+// findEpoch: the first entry whose epoch is >= the argument (binary search over the sorted entries)
+//@ func (*leaderEpochCache).findEpoch$1 serves C02
+//@   ensures result == (l.epochOffsets[i].leaderEpoch >= epoch)
+//@ func (*leaderEpochCache).findEpoch serves C02
+//@   requires l != nil && wfEpochs(l)
+//@   safety
+//@   modifies nothing
+//@   ensures [none] result == nil <==> (forall i int :: 0 <= i && i < len(l.epochOffsets) ==> l.epochOffsets[i].leaderEpoch < epoch)
+//@   ensures [first] result != nil ==> (exists k int :: 0 <= k && k < len(l.epochOffsets) && result == l.epochOffsets[k] && l.epochOffsets[k].leaderEpoch >= epoch && (forall i int :: 0 <= i && i < k ==> l.epochOffsets[i].leaderEpoch < epoch))
+
+// LastOffsetForLeaderEpoch(e): start offset of the first epoch after e, or -1 if e is the latest known
+//@ func (*leaderEpochCache).LastOffsetForLeaderEpoch serves C02
+//@   requires l != nil && wfEpochs(l) && epoch < 18446744073709551615
+//@   safety
+//@   modifies nothing
+//@   ensures [latest] (forall i int :: 0 <= i && i < len(l.epochOffsets) ==> l.epochOffsets[i].leaderEpoch <= epoch) ==> result == -1
+//@   ensures [next-epoch-start] forall k int :: 0 <= k && k < len(l.epochOffsets) && l.epochOffsets[k].leaderEpoch > epoch && (forall i int :: 0 <= i && i < k ==> l.epochOffsets[i].leaderEpoch <= epoch) ==> result == l.epochOffsets[k].startOffset
+
+// assign appends (epoch, offset) iff the epoch is newer and the offset not older than the latest entry
+//@ func (*leaderEpochCache).assign serves C02
+//@   requires l != nil && wfEpochs(l)
+//@   safety
+//@   ensures [wf] wfEpochs(l)
+//@   ensures [appended] epoch > old(len(l.epochOffsets) == 0 ? 0 : l.epochOffsets[len(l.epochOffsets)-1].leaderEpoch) && offset >= old(len(l.epochOffsets) == 0 ? -1 : l.epochOffsets[len(l.epochOffsets)-1].startOffset) && result == nil ==> len(l.epochOffsets) == old(len(l.epochOffsets)) + 1 && l.epochOffsets[len(l.epochOffsets)-1].leaderEpoch == epoch && l.epochOffsets[len(l.epochOffsets)-1].startOffset == offset
+//@   ensures [prefix-kept] len(l.epochOffsets) >= old(len(l.epochOffsets)) && (forall i int :: 0 <= i && i < old(len(l.epochOffsets)) ==> l.epochOffsets[i] == old(l.epochOffsets[i]) && l.epochOffsets[i].leaderEpoch == old(l.epochOffsets[i].leaderEpoch) && l.epochOffsets[i].startOffset == old(l.epochOffsets[i].startOffset))
+//@   ensures [rejected-unchanged] !(epoch > old(len(l.epochOffsets) == 0 ? 0 : l.epochOffsets[len(l.epochOffsets)-1].leaderEpoch) && offset >= old(len(l.epochOffsets) == 0 ? -1 : l.epochOffsets[len(l.epochOffsets)-1].startOffset)) ==> len(l.epochOffsets) == old(len(l.epochOffsets))
+
+//@ func (*leaderEpochCache).Assign serves C02
+//@   requires l != nil && wfEpochs(l)
+//@   ensures wfEpochs(l)
+//@   ensures len(l.epochOffsets) >= old(len(l.epochOffsets))
+
+//@ func (*leaderEpochCache).LastLeaderEpoch serves C02
+//@   requires l != nil && wfEpochs(l)
+//@   modifies nothing
+//@   ensures result == (len(l.epochOffsets) == 0 ? 0 : l.epochOffsets[len(l.epochOffsets)-1].leaderEpoch)
+
+// ClearLatest(o) (used by Truncate): keeps exactly the entries that start below o - a prefix, unchanged
+//@ func (*leaderEpochCache).ClearLatest serves C02, C05
+//@   requires l != nil && wfEpochs(l)
+//@   safety
+//@   ensures [wf] wfEpochs(l)
+//@   ensures [prefix] len(l.epochOffsets) <= old(len(l.epochOffsets)) && (forall i int :: 0 <= i && i < len(l.epochOffsets) ==> l.epochOffsets[i] == old(l.epochOffsets[i]) && l.epochOffsets[i].leaderEpoch == old(l.epochOffsets[i].leaderEpoch) && l.epochOffsets[i].startOffset == old(l.epochOffsets[i].startOffset))
+//@   ensures [all-below] forall i int :: 0 <= i && i < len(l.epochOffsets) ==> l.epochOffsets[i].startOffset < offset
+//@   ensures [nothing-below-dropped] let n = len(l.epochOffsets) in (n < old(len(l.epochOffsets)) ==> old(l.epochOffsets[n].startOffset) >= offset)
+//@   loop 1 invariant -1 <= rangeindex && rangeindex < len(l.epochOffsets)
+//@   loop 1 invariant l.epochOffsets == old(l.epochOffsets) && (forall i int :: 0 <= i && i < len(l.epochOffsets) ==> l.epochOffsets[i] == old(l.epochOffsets[i]))
+//@   loop 1 invariant forall x *epochOffset :: x.leaderEpoch == old(x.leaderEpoch) && x.startOffset == old(x.startOffset)
+//@   loop 1 invariant fresh(filtered) && len(filtered) <= rangeindex + 1 && len(filtered) <= cap(filtered) && cap(filtered) == len(l.epochOffsets)
+//@   loop 1 invariant forall i int :: 0 <= i && i < len(filtered) ==> filtered[i] == old(l.epochOffsets[i]) && old(l.epochOffsets[i].startOffset) < offset
+//@   loop 1 invariant len(filtered) < rangeindex + 1 ==> old(l.epochOffsets[len(filtered)].startOffset) >= offset
